@@ -1,10 +1,10 @@
 add("C18","exploration",
- "runtime monitoring: seeded list generator + oracle over the discovery API's output in worker processes; real dcat against fake SSH servers counting connections per port",
+ "runtime monitoring: seeded list generator + oracle over the discovery API's output in worker processes; real dcat against fake SSH servers counting connections per port; reconnect tier: dtail against fake servers that drop every connection, monitors over their connection log",
  "Held on the generated lists (sizes 0..5000, all duplicate layouts, comma/file/plug-in+regex) and on the e2e runs listed in the evidence; nothing is claimed for list shapes outside the generator.",
  "Trusted: Go regexp, sort; assumes blank entries are out of scope; the /regex/ filter is reached through a verif-tagged plug-in module.",
  "DESIGN.md §2 C18")
 add("C11","exploration",
- "runtime monitoring: seeded grammar-based query generator; oracle A over the parsed query's exported fields, oracle B over the CSV produced by running the parsed query through the real aggregation pipeline against an independent reference evaluator; malformed classes must error; mutants run in crash-isolated worker processes",
+ "runtime monitoring: seeded grammar-based query generator; oracle A over the parsed query's exported fields, oracle B over the CSV produced by running the parsed query through the real aggregation pipeline against an independent reference evaluator; malformed classes must error; every text is also submitted twice to the server-side entry point and must get the parser's verdict both times; mutants run in crash-isolated worker processes",
  "Held on the generated valid queries (all clause orders, keyword cases, separator styles, back-quoted and quoted operands), the 28 malformed classes and the mutants/prefixes listed in the evidence; not a proof about the whole grammar.",
  "Trusted: the harness' query model and reference evaluator (internal/mq), Go regexp/strconv; lower-case operator/function names only.",
  "DESIGN.md §2 C11")
@@ -14,27 +14,27 @@ add("C05","exploration",
  "Trusted: reference evaluator (internal/mq) written from the documentation, Go strconv; avg over non-numeric lines compared between runs only; e2e uses one file per server (known finding c06.agg-early-exit).",
  "DESIGN.md §2 C05")
 add("C03","exploration",
- "runtime monitoring: exhaustive enumeration of selection vectors x context parameters through the real cat reader in worker processes, seeded regex/file generator, and real dgrep --plain runs (serverless + SSH); oracle = 25-line reference model of grep context semantics + Go regexp on the bare line",
+ "runtime monitoring: exhaustive enumeration of selection vectors x context parameters through the real cat reader in worker processes, seeded regex/file generator, and real dgrep --plain runs (serverless + SSH, incl. pairs re-using a pattern with the opposite flag on one server); oracle = 25-line reference model of grep context semantics + Go regexp on the bare line",
  "Exhaustive up to the line bound stated in the evidence (all selection vectors x before/after/max in {0,1,2,3,5,n+1} x invert x final newline), sampled beyond it (files to 5000 lines, generated RE2 patterns, e2e).",
  "Trusted: Go regexp, the reference model; no-op patterns are not combined with --invert.",
  "DESIGN.md §2 C03")
 add("C01","exploration",
- "runtime monitoring: seeded byte-class content generator; real dcat binary (serverless and over SSH against in-process servers, plain and REMOTE-record mode, gzip/zstd containers, three MaxLineLength values); oracle = byte equality of stdout with the content after the only permitted transformation; deviations are classified against narrow known-finding predictors",
+ "runtime monitoring: seeded byte-class content generator; real dcat binary (serverless and over SSH against in-process servers, plain and REMOTE-record mode, gzip/zstd containers, three MaxLineLength values; consumers that stall at the start or when only the tail of the file is outstanding); oracle = byte equality of stdout with the content after the only permitted transformation; deviations are classified against narrow known-finding predictors",
  "Held on the generated files counted in the evidence (byte classes x containers x M x transport cells); files up to 2 MiB (thorough).",
  "Trusted: compress/gzip, DataDog/zstd writer for test inputs; clients must run with --logLevel error; known findings c01.* are recognised by exact prediction only.",
  "DESIGN.md §2 C01")
 add("C12","exploration",
- "runtime monitoring: seeded generator of patterns/options containing the wire format's own delimiters; real dgrep end to end through encoder and server-side decoder (serverless, sample over SSH); oracle = lines selected by the user's pattern compiled with Go regexp in the harness + context model, and the output mode",
+ "runtime monitoring: seeded generator of patterns/options containing the wire format's own delimiters; real dgrep end to end through encoder and server-side decoder (serverless, sample over SSH; overlapping sessions with opposite flags; multi-command sessions whose options must apply to every command); oracle = lines selected by the user's pattern compiled with Go regexp in the harness + context model, and the output mode",
  "Held on the generated (pattern, flags, options, mode) combinations counted in the evidence.",
  "Trusted: Go regexp; C03's reference context model; patterns without NUL/0xAC.",
  "DESIGN.md §2 C12")
 add("C16","exploration",
- "runtime monitoring: seeded message/stream generator; Colorfy and the real client handlers run in crash-isolated child processes (coloured vs uncoloured stdout compared after stripping SGR sequences; uncoloured output compared with the message sequence); a harness-controlled SSH server plays the streams to the real dcat/dmap/dtailhealth binaries",
+ "runtime monitoring: seeded message/stream generator; Colorfy (alone and from 12 goroutines at once) and the real client handlers run in crash-isolated child processes (coloured vs uncoloured stdout compared after stripping SGR sequences; uncoloured output compared with the message sequence); a harness-controlled SSH server plays the streams to the real dcat/dmap/dtailhealth binaries",
  "Held on the generated messages and streams counted in the evidence.",
  "Trusted: the SGR-strip regexp; both sides are stripped when the message itself contains ESC.",
  "DESIGN.md §2 C16")
 add("C08","exploration",
- "runtime monitoring: seeded filesystem-layout/rule/request generator; HasFilePermission verdicts observed in worker processes on real directory trees, and real dcat sessions over SSH against servers configured with the rules (unique content token per file); oracle = independent statement of the rule semantics on the EvalSymlinks+Abs path",
+ "runtime monitoring: seeded filesystem-layout/rule/request generator (per-user, default, empty and other users' rule lists); HasFilePermission verdicts observed in worker processes on real directory trees, and real dcat sessions over SSH against servers configured with the rules (unique content token per file); oracle = independent statement of the rule semantics on the EvalSymlinks+Abs path",
  "Held on the generated (tree, rules, request) triples counted in the evidence; both directions (allowed served, denied discloses nothing).",
  "Trusted: filepath.EvalSymlinks/Abs/Glob, Go regexp; static layouts (no TOCTOU claim).",
  "DESIGN.md §2 C08")
@@ -49,7 +49,7 @@ add("C14","exploration",
  "Trusted: x/crypto/ssh, porcupine v1.3.0; 'served' = answers a global request after authentication; client-side closes may linearize any time after their call.",
  "DESIGN.md §2 C14")
 add("C10","exploration",
- "runtime monitoring: grammar-aware hostile-input generator; inputs are applied to fresh real ServerHandlers in crash-isolated worker processes (input logged before application) and sent over SSH to a real server while a canary session of another user and health logins observe liveness; oracle = process survival, canary stream intact, health answers OK",
+ "runtime monitoring: grammar-aware hostile-input generator; inputs are applied to fresh real ServerHandlers in crash-isolated worker processes (input logged before application; each process starts cold with simultaneous many-file requests under a 10-rule permission list) and sent over SSH to a real server while a canary session of another user and health logins observe liveness; oracle = process survival, canary stream intact, health answers OK",
  "Held on the hostile inputs counted in the evidence (command x argument count x fault-class cells); no behavioural expectation beyond survival and an error/close for the offender.",
  "Trusted: the harness SSH client; crash attribution names the culprit and its five predecessors.",
  "DESIGN.md §2 C10")
@@ -59,7 +59,7 @@ add("C13","exploration",
  "Trusted: /proc fd view; a blocked cat reader keeps its file open; hook call sites srv.lim.* (the /proc observation decides, the trace cross-checks).",
  "DESIGN.md §2 C13")
 add("C02","exploration",
- "runtime monitoring: real dcat/dgrep (serverless and over SSH) with a harness-owned, size-limited stdout pipe read by seeded pacing programs (fast, slow, stalls of 0.15-16 s placed around the queue/pipe/window boundaries), sessions of killed clients before judged ones, race-detector pass in the thorough tier; every line carries (file, sequence number, CRC); oracle = exactly-once in-order delivery per file, exit status 0, termination by a logical-time hang rule; hook traces attribute losses of multi-command sessions to the recorded finding",
+ "runtime monitoring: real dcat/dgrep (serverless and over SSH) with a harness-owned, size-limited stdout pipe read by seeded pacing programs (fast, slow, stalls of 0.15-16 s placed around the queue/pipe/window boundaries), sessions of killed clients before judged ones, race-detector pass in the thorough tier; every line carries (file, sequence number, CRC), some are 40-330 KB long; oracle = exactly-once in-order delivery per file, exit status 0, termination by a logical-time hang rule; hook traces attribute losses of multi-command sessions to the recorded finding",
  "Held on the sessions counted in the evidence (pacing x size x files x limit x transport cells, distinct hook-order signatures).",
  "Trusted: /proc-based idle detection; finding c02.cmd-race is only accepted for multi-command sessions with suffix-only loss and a trace showing shutdown before a later command.",
  "DESIGN.md §2 C02")
@@ -74,7 +74,7 @@ add("C06","exploration",
  "Trusted: hook call sites for attribution only (the CSV decides); c06.agg-early-exit is accepted only with the trace pattern, no excess, and deficits on servers showing it.",
  "DESIGN.md §2 C06")
 add("C04","exploration",
- "runtime monitoring: the real tail reader follows real files in worker processes while the harness appends through seeded write() chunkers, starting only once the reader's descriptor offset (/proc fdinfo) shows it is positioned; delivered lines (content, running number, transmission percentage) are checked against the appended lines; real dtail (serverless and over SSH) for a sample",
+ "runtime monitoring: the real tail reader follows real files in worker processes while the harness appends through seeded write() chunkers, starting only once the reader's descriptor offset (/proc fdinfo) shows it is positioned; delivered lines (content, running number, transmission percentage) are checked against the appended lines; real dtail (serverless and over SSH) for a sample, and 10 s follows with a continuous writer and a delay at the hook point where the follower sees EOF (housekeeping rounds)",
  "Held on the follows counted in the evidence (chunkers x sizes x queue regimes; drops actually provoked in regime b are counted).",
  "Trusted: /proc fdinfo offsets; regime a = queue can never be full; regime b without filter; append-only writers.",
  "DESIGN.md §2 C04")
